@@ -33,7 +33,7 @@ class C16(Prop):
     def gen(self, seed, idx, tier):
         R = Rng(seed, "C16")
         used = set()
-        cfg = {"small": True, "net": NET, "zero_rtt_any_suite_pct": 0, "ku_pct": 10, "retry_pct": 10}
+        cfg = {"small": True, "net": NET, "zero_rtt_any_suite_pct": 0, "ku_pct": 10, "retry_pct": 10, "ncid_late_pct": 0}
         conn = quicpeer.gen_quic_conn(R.fork("conn"), 0, cfg, used)
         q = conn["q"]
         # aim skips at window boundaries
